@@ -14,7 +14,9 @@ LAYOUT = {
     "fee_sufficient_exact_outside_mul_overflow_region": [("base", 4), ("ppm", 4), ("total", 8), ("amount", 8)],
     "fee_sufficient_exact_inside_mul_overflow_region": [("base", 4), ("ppm", 4), ("total", 8), ("amount", 8)],
 }
+LAYOUT["tu64_decodes_exactly"] = [(f"b{i}", 1) for i in range(9)] + [("len", 8)]
 REPLAY_TARGET = {
+    "tu64_decodes_exactly": "get_tu64",
     "fee_sufficient_no_panic": "fee_sufficient",
     "fee_sufficient_exact_outside_mul_overflow_region": "fee_sufficient",
     "fee_sufficient_exact_inside_mul_overflow_region": "fee_sufficient",
@@ -105,6 +107,9 @@ def run_harnesses(prop, harnesses, tier, failing=()):
             r.update(status="failed", summary="; ".join(failed[:3]) or "verification failed", output=b[-3000:])
             cmd2, out2, _ = _cargo_kani([h["harness"]], ["-Z", "concrete-playback", "--concrete-playback=print"], timeout=h.get("timeout", 600))
             inp = _concrete(h["harness"], out2)
+            if inp and h["harness"] == "tu64_decodes_exactly":
+                n = min(int(inp["len"]), 9)
+                inp = {"hex": "".join("%02x" % int(inp[f"b{i}"]) for i in range(n))}
             if inp:
                 r["inputs"] = inp
                 r["replay_target"] = REPLAY_TARGET.get(h["harness"])
